@@ -501,7 +501,19 @@ pub fn tr_op(sim: &Sim, id: Id, op: &Op, in_cb: bool, lazy: bool) {
     match op {
         Op::TrMap(_) => {
             let r = guarded(sim, "map", || disp.as_source_mut().inner.tr.map(|c| c.log.no));
+            let empty = guarded(sim, "is_none", || disp.as_source_ref().inner.tr.is_none());
             let st = sim.st.borrow();
+            if let (Some(e), Some(K::Trans(t))) = (empty, st.srcs.get(&id).filter(|s| s.inserted && !s.indeterminate).map(|s| &s.k)) {
+                // empty means: holds no source at all - a child whose removal is still to be
+                // carried out by the next re-registration is still held
+                let expect_empty = t.current.is_none() && t.pending_replace.is_none();
+                if e != expect_empty {
+                    let d = format!("is_none() on transient parent {} returned {}, but the wrapper {} (current child {:?}, removal pending: {})", id, e, if expect_empty { "holds nothing" } else { "still holds a source" }, t.current, t.pending_remove);
+                    drop(st);
+                    sim.violate("transient.map", vec!["is_none".into()], d);
+                    return;
+                }
+            }
             if let (Some(r), Some(K::Trans(t))) = (r, st.srcs.get(&id).map(|s| &s.k)) {
                 // map sees the child that is (or is about to become) current
                 let expect = if t.pending_remove && t.pending_replace.is_none() { None } else { t.pending_replace.or(t.current).map(|i| t.children[i].log.no) };
